@@ -102,6 +102,24 @@ fn emit(s: &S, id: usize, kind: usize) {
         0 => s.w.describe_gauge("g".into(), None, "d".into()),
         1 => s.w.register_counter(&Key::from_name("c"), &META).increment(1),
         2 => s.w.describe_counter("c".into(), Some(Unit::Count), "d".into()),
+        // emissions made by a destructor while a panic unwinds through its frame ("record on drop" guards); the panic
+        // is caught right outside
+        4 | 5 => {
+            struct OnDrop<'a>(&'a S, usize);
+            impl Drop for OnDrop<'_> {
+                fn drop(&mut self) {
+                    if self.1 == 4 {
+                        self.0.w.register_counter(&Key::from_name("c"), &META).increment(1)
+                    } else {
+                        self.0.w.describe_histogram("h".into(), None, "d".into())
+                    }
+                }
+            }
+            let _ = std::panic::catch_unwind(std::panic::AssertUnwindSafe(|| {
+                let _g = OnDrop(s, kind);
+                std::panic::resume_unwind(Box::new("unwinding past an emitting guard"));
+            }));
+        }
         _ => {
             let _ = s.w.register_histogram(&Key::from_name("h"), &META);
         }
@@ -289,9 +307,26 @@ fn install_ok_part(res: &mut PartResult, recover: bool) {
     };
     all_six(1);
     res.transitions += 6;
+    {
+        // the same six operations made by a destructor while a panic (caught) unwinds through its frame
+        struct OnDrop<F: Fn(usize)>(F);
+        impl<F: Fn(usize)> Drop for OnDrop<F> {
+            fn drop(&mut self) {
+                (self.0)(1)
+            }
+        }
+        let prev = std::panic::take_hook();
+        std::panic::set_hook(Box::new(|_| {}));
+        let _ = std::panic::catch_unwind(std::panic::AssertUnwindSafe(|| {
+            let _g = OnDrop(&all_six);
+            panic!("unwinding past an emitting guard");
+        }));
+        std::panic::set_hook(prev);
+        res.transitions += 6;
+    }
     let entered = st.entered.lock().unwrap().clone();
-    if entered != vec![1; 6] || st.counter_value.load(Ordering::SeqCst) != 2 {
-        res.violation("emission-lost-while-handle-alive", format!("six operations through the installed wrapper: {} reached the recorder, counter value {}", entered.len(), st.counter_value.load(Ordering::SeqCst)), json!({}));
+    if entered != vec![1; 12] || st.counter_value.load(Ordering::SeqCst) != 4 {
+        res.violation("emission-lost-while-handle-alive", format!("six operations through the installed wrapper, twice (the second time from a destructor during unwinding): {} of 12 reached the recorder, counter value {} (4 expected)", entered.len(), st.counter_value.load(Ordering::SeqCst)), json!({}));
     }
     // a second install on top of it fails and hands its recorder back
     let st2 = Arc::new(Stats::default());
@@ -333,22 +368,22 @@ fn install_ok_part(res: &mut PartResult, recover: bool) {
     }
     res.transitions += 6;
     let entered = st.entered.lock().unwrap().clone();
-    if entered.len() != 6 || st.counter_value.load(Ordering::SeqCst) != 2 || st.entered_after_end.load(Ordering::SeqCst) {
+    if entered.len() != 12 || st.counter_value.load(Ordering::SeqCst) != 4 || st.entered_after_end.load(Ordering::SeqCst) {
         res.violation("wrapper-not-inert-after-recovery", format!("operations made after {} still reached the recorder: entered {:?}, counter {}", if recover { "into_inner()" } else { "the handle was dropped" }, entered, st.counter_value.load(Ordering::SeqCst)), json!({}));
     }
     if st.drops.load(Ordering::SeqCst) != 1 {
         res.violation("recorder-not-dropped-exactly-once", format!("wrapped recorder dropped {} times", st.drops.load(Ordering::SeqCst)), json!({}));
     }
-    res.sample(json!({"history": "install() -> 6 operations via macros -> second install() fails -> into_inner() / drop(handle) -> 6 operations via macros (inert) -> drop"}));
+    res.sample(json!({"history": "install() -> 6 operations via macros -> the same 6 from a destructor while a caught panic unwinds -> second install() fails -> into_inner() / drop(handle) -> 6 operations via macros (inert) -> drop"}));
 }
 
 fn parts(ctx: &Ctx) -> Vec<PartSpec> {
     let e1 = |s: &str, pb: u64| PartSpec::new(&format!("e1-{}-pb{}", s, pb), json!({"e1": s, "pb": pb}));
     let mut v = vec![PartSpec::new("install-fails", json!({"install": true})), PartSpec::new("install-ok-recover", json!({"install_ok": true})), PartSpec::new("install-ok-drop", json!({"install_ok": false}))];
     if ctx.quick() {
-        v.extend([e1("recover", 3), e1("drop", 3), e1("recover-1emitter", 4)]);
+        v.extend([e1("recover", 3), e1("drop", 3), e1("recover-1emitter", 4), e1("recover-unwinding", 3), e1("drop-unwinding", 3)]);
     } else {
-        v.extend([e1("recover", 4).budget(1500.0), e1("drop", 4).budget(1500.0), e1("recover-1emitter", 6).budget(1500.0), e1("recover-3", 3).budget(1500.0)]);
+        v.extend([e1("recover", 4).budget(1500.0), e1("drop", 4).budget(1500.0), e1("recover-1emitter", 6).budget(1500.0), e1("recover-3", 3).budget(1500.0), e1("recover-unwinding", 4).budget(1500.0), e1("drop-unwinding", 4).budget(1500.0)]);
     }
     v
 }
@@ -367,6 +402,8 @@ fn run(ctx: &Ctx, spec: &PartSpec) -> PartResult {
     let scn = match spec.arg["e1"].as_str().unwrap_or("") {
         "recover" => scenario("emitter(describe_gauge, register_counter+increment) || emitter(describe_counter) || into_inner", vec![vec![0, 1], vec![2]], true),
         "drop" => scenario("emitter(describe_gauge, register_counter+increment) || emitter(describe_counter) || drop(handle)", vec![vec![0, 1], vec![2]], false),
+        "recover-unwinding" => scenario("emitter(counter emitted by a destructor during unwinding, describe_gauge) || emitter(describe_histogram by a destructor during unwinding) || into_inner", vec![vec![4, 0], vec![5]], true),
+        "drop-unwinding" => scenario("emitter(counter emitted by a destructor during unwinding, describe_gauge) || emitter(describe_histogram by a destructor during unwinding) || drop(handle)", vec![vec![4, 0], vec![5]], false),
         "recover-3" => scenario("3 emitters || into_inner", vec![vec![0], vec![1], vec![3]], true),
         _ => scenario("emitter(register_counter+increment, describe_counter, register_histogram) || into_inner", vec![vec![1, 2, 3]], true),
     };
@@ -378,7 +415,7 @@ fn main() {
     driver::main(CheckDef {
         prop: "C20",
         level: "model_checking",
-        rule: "every SC interleaving (pb-bounded) of emitting threads using the wrapper returned by RecoverableRecorder (real WeakRecorder / RecoveryHandle code; Arc clone/drop/downgrade/upgrade/try_unwrap are scheduling points via the facade Arc, plus one point inside every recorder call) with a thread calling into_inner() or dropping the handle; the double counts calls in flight, calls entering after the end, drops; epilogue emissions must be inert; plus process-level histories: a failing install(), and a successful install() followed by the six operations through the facade macros, a second (failing) install, into_inner() or drop(handle), and the six operations again; distinct = distinct (emissions that reached the recorder) outcomes",
+        rule: "every SC interleaving (pb-bounded) of emitting threads using the wrapper returned by RecoverableRecorder (real WeakRecorder / RecoveryHandle code; Arc clone/drop/downgrade/upgrade/try_unwrap are scheduling points via the facade Arc, plus one point inside every recorder call) with a thread calling into_inner() or dropping the handle, emissions also made by a destructor while a caught panic unwinds through its frame; the double counts calls in flight, calls entering after the end, drops; epilogue emissions must be inert; plus process-level histories: a failing install(), and a successful install() followed by the six operations through the facade macros (normally and from a destructor during unwinding), a second (failing) install, into_inner() or drop(handle), and the six operations again; distinct = distinct (emissions that reached the recorder) outcomes",
         assumptions: &["sequential consistency", "the wrapper is obtained through the guarded verif_build() (the same private build() that install() uses) instead of being installed as the process-global recorder"],
         parts,
         run,
